@@ -334,22 +334,20 @@ def ob_d(ob):
 
 
 # ---- shared obligation: momentum conservation of a run with centre-of-mass removal needs _zero_com to leave zero linear momentum for a centre of mass off the origin ----
-from . import C13 as _C13_mod  # noqa: E402
-
-
-@obligation(PID, "e", title="[shared with C13.a] " + [e for e in __import__("engine.ob", fromlist=["REGISTRY"]).REGISTRY["C13"] if e[1] is _C13_mod.ob_a][0][3])
+@obligation(PID, "e", title='[shared with C13.a] _zero_com: afterwards sum m v = 0, angular momentum about the COM = 0 (where requested), kinetic energy preserved, padding atoms at rest — for all velocity fields, COM off the origin, padded batch incl. a linear molecule')
 def ob_e_shared(ob):
     """momentum conservation of a run with centre-of-mass removal needs _zero_com to leave zero linear momentum for a centre of mass off the origin"""
+    from . import C13 as _m  # imported lazily: the harness modules share obligations in both directions
+
     ob.note("this obligation is the one registered as C13.a; it is also decided here because momentum conservation of a run with centre-of-mass removal needs _zero_com to leave zero linear momentum for a centre of mass off the origin")
-    _C13_mod.ob_a(ob)
+    _m.ob_a(ob)
 
 
 # ---- shared obligation: the excited-surface energy conserved by the integrator is computed from orbital energies that must follow their orbitals through an orbital swap ----
-from . import C14 as _C14_mod  # noqa: E402
-
-
-@obligation(PID, "f", title="[shared with C14.e] " + [e for e in __import__("engine.ob", fromlist=["REGISTRY"]).REGISTRY["C14"] if e[1] is _C14_mod.ob_e][0][3])
+@obligation(PID, "f", title='[shared with C14.e] orbital tracking along a trajectory reorders orbital energies together with their orbitals: after Energy._crossing_match_molecular_orbitals the k-th reported energy is the energy of the orbital reported in column k, for every reordering of the occupied and of the virtual block (arbitrary energies)')
 def ob_f_shared(ob):
     """the excited-surface energy conserved by the integrator is computed from orbital energies that must follow their orbitals through an orbital swap"""
+    from . import C14 as _m  # imported lazily: the harness modules share obligations in both directions
+
     ob.note("this obligation is the one registered as C14.e; it is also decided here because the excited-surface energy conserved by the integrator is computed from orbital energies that must follow their orbitals through an orbital swap")
-    _C14_mod.ob_e(ob)
+    _m.ob_e(ob)
